@@ -1066,6 +1066,7 @@ def run_calls_case(case, acc):
         used_any = False
         seen_driver_order = False
         seen_own_ci = False
+        decl_order_first = False
         for k, call in enumerate(case['calls']):
             blocks = closed_form_h(case, call['ds'])
             tol = 1e-12 * max(max(np.abs(b).max() for b in blocks.values()), 1e-300)
@@ -1084,6 +1085,10 @@ def run_calls_case(case, acc):
                 if call['ofk'] == 'declaration-order':
                     # its own mechanism: the list equals the responses' source names in declaration order
                     sig = 'of-in-declaration-order:' + sig
+            if decl_order_first and when == 'after-custom-calls-only' and _is_driver_order(case, call):
+                # same mechanism seen one call later: the declaration-order call was taken for the driver's list
+                # while no coloring existed yet, so the coloring stored for the driver was made for ITS row order
+                sig = 'of-in-declaration-order:earlier-call-made-the-stored-coloring:' + sig
             if call.get('ci') == 'own-dynamic':
                 sig += ':own-coloring_info'
                 acc.count('cell:calls/own-dynamic-coloring_info')
@@ -1098,6 +1103,8 @@ def run_calls_case(case, acc):
             if why0 is not None:
                 acc.count('calls:uncolored-twin-differs-from-closed-form(not C03)')
                 acc.count('calls:twin-issue:%s:%s' % (call['api'], why0.split(',')[0][:60]))
+                if call['ofk'] == 'declaration-order' and not seen_driver_order:
+                    decl_order_first = True
                 if _is_driver_order(case, call):
                     seen_driver_order = True
                 if call.get('ci') == 'own-dynamic':
@@ -1144,6 +1151,8 @@ def run_calls_case(case, acc):
                           call.get('ci'), why, used), case)
                 bad = True
                 break           # later calls of the sequence run on a problem in an unknown state
+            if call['ofk'] == 'declaration-order' and not seen_driver_order:
+                decl_order_first = True
             if _is_driver_order(case, call):
                 seen_driver_order = True
             if call.get('ci') == 'own-dynamic':
